@@ -243,6 +243,12 @@ Definition chart (a : ann) : ann * list (name * Z) :=
   let durs := map (fun l => (l, snd (label_duration a1 l))) labs in
   (a1, sort_stable (fun x y => snd y <=? snd x) durs).
 
+(* chart(percent=True): each duration over the sum of the label durations (kept as a pair numerator / denominator) *)
+Definition chart_percent (a : ann) : ann * list (name * (Z * Z)) :=
+  let '(a1, ch) := chart a in
+  let total := fold_right Z.add 0 (map snd ch) in
+  (a1, map (fun p => (fst p, (snd p, total))) ch).
+
 (* ---- construction from a list of records by successive insertions ---- *)
 Definition ann_of (u m : uri_t) (recs : list triple) : ann := update_with (a_empty u m) recs.
 End Ops.
